@@ -289,6 +289,12 @@ def worker_f(payload):
                     # a dependent method whose condition fails still shapes the ranks: what it dominates sits in
                     # a lower rank, so an ambiguity among the methods that do match goes unnoticed
                     key = "D23:failing-dependent-method-shapes-the-ranks"
+                elif py_spec.failing_candidates and got == ["ambiguous"] and want[0] == "ran":
+                    # the same cause seen from the other side: a dependent method whose condition fails sits in one
+                    # type-level rank with static methods; the generated dispatcher of that rank counts matches, and
+                    # methods that recency (or a lower rank) would have separated both count: ambiguity although the
+                    # documented rule has a winner
+                    key = "D23:failing-dependent-method-ties-a-rank"
                 else:
                     key = None
                 for name in ("C10", "C11"):
